@@ -98,6 +98,10 @@ def reg_pass(seed, count, label, lines_fn=None):
                     n = rnd.choice(sorted(has_edited))
                     ops += [["u", ("s", n), str(has_edited[n])], ["r"]]
                     if rnd.random() < 0.5: ops += [["u", ("s", n), "1"], ["r"]]
+                # a project that uses custom formats: every rebuild names its settings, and the history ends with rebuilds that
+                # differ in nothing but the settings (the output is a function of the sources AND the settings)
+                if "gen_vfmt.ts" in names:
+                    ops = [["rs", str(rnd.randrange(3))] if o == ["r"] else o for o in ops] + [["rs", "1"], ["rs", "0"], ["rs", "2"]]
                 out.append(vcheck.sx_show(["watch", sx[1], ["files"] + specs, ["ops"] + ops]))
             except Exception:
                 continue
